@@ -49,6 +49,21 @@ func main() {
 		}
 		rec.Close()
 		report(rec)
+	case "explore":
+		cfg := ExploreConfigs()[*in]
+		if cfg == nil {
+			fmt.Fprintln(os.Stderr, "unknown exploration", *in)
+			os.Exit(2)
+		}
+		if *steps > 0 && *steps != 150 {
+			cfg.MaxDepth = *steps
+		}
+		rec := NewRecorder(*out)
+		res := Explore(cfg, rec, *n)
+		rec.Close()
+		res["lines"] = rec.Lines
+		b, _ := json.Marshal(res)
+		fmt.Println(string(b))
 	case "keys":
 		b, _ := json.Marshal(KeysRun(*out, *seed))
 		fmt.Println(string(b))
